@@ -5,19 +5,10 @@ Require Export MTX.Model.C10_Load.
 Import ListNotations.
 Local Open Scope Z_scope.
 
-(* constructors for the cases files *)
-Definition P (name : list Z) (name_ok regex : bool) (s : src) (on_demand : bool) (srt_pub srt_read : Z)
-             (redirect redirect_ok : bool) (cam : Z) (secondary rpi_ok other_ok aa aa_src_ok abs_ts run_init run_demand : bool)
-             (record_path : list Z) (seg del : Z) (tracks : list (Z * Z * Z)) : pathc :=
-  {| p_name := name; p_name_ok := name_ok; p_regex := regex; p_source := s; p_on_demand := on_demand;
-     p_srt_pub := srt_pub; p_srt_read := srt_read; p_redirect := redirect; p_redirect_ok := redirect_ok;
-     p_cam := cam; p_secondary := secondary; p_rpi_ok := rpi_ok; p_other_ok := other_ok; p_aa := aa;
-     p_aa_src_ok := aa_src_ok; p_abs_ts := abs_ts; p_run_init := run_init; p_run_demand := run_demand;
-     p_record_path := record_path; p_seg := seg; p_del := del; p_tracks := tracks |}.
-
-Definition G (read_to write_to wqs : Z) (rbc : option Z) (udp : Z) (playback other_ok : bool) (paths : list pathc) : gconf :=
-  {| g_read_to := read_to; g_write_to := write_to; g_wqs := wqs; g_read_buffer_count := rbc; g_udp := udp;
-     g_playback := playback; g_other_ok := other_ok; g_paths := paths |}.
+(* The cases files build the model's records with their constructors, fields in declaration order:
+   U (userc), PX (pext), P (pathc), XA (xauth), XS (xsrv), XR (xrtsp), XW (xwebrtc), XM (xmoq), XD (xrec), GX (gext),
+   G (gconf); B = bytes of a string literal. *)
+Notation B := bytes.
 
 Inductive obs := OLoaded (g : gconf) | OErr | OPanic.
 Inductive dobs := DecErr | DecPanic | DecOk (plain : list Z).
@@ -35,14 +26,46 @@ Inductive case :=
 | EnvList (pointer_nil : bool) (panicked : bool)  (* env.Load, empty variable on a list parameter *)
 | EnvSub (pointer_nil : bool) (panicked : bool).  (* env.Load, variable extending the name of an Unmarshaler parameter *)
 
+Definition same_path (m r : pathc) : bool :=
+  list_eqb (p_name m) (p_name r) && Bool.eqb (p_regex m) (p_regex r) && src_eqb (p_source m) (p_source r) &&
+  list_eqb (p_record_path m) (p_record_path r) &&
+  (* the parameters Path.validate may rewrite *)
+  Bool.eqb (e_override_publisher (p_x m)) (e_override_publisher (p_x r)) &&
+  (e_rtsp_transport (p_x m) =? e_rtsp_transport (p_x r)) && Bool.eqb (e_rtsp_any_port (p_x m)) (e_rtsp_any_port (p_x r)) &&
+  ostr_eqb (e_hw_profile (p_x m)) (e_hw_profile (p_x r)) && ostr_eqb (e_hw_level (p_x m)) (e_hw_level (p_x r)) &&
+  (e_mjpeg_q (p_x m) =? e_mjpeg_q (p_x r)) &&
+  list_eqb (e_on_available (p_x m)) (e_on_available (p_x r)) &&
+  Bool.eqb (e_available_restart (p_x m)) (e_available_restart (p_x r)) &&
+  list_eqb (e_on_unavailable (p_x m)) (e_on_unavailable (p_x r)).
+
+Definition same_srv (m r : xsrv) : bool := list_eqb_with list_eqb (s_origins m) (s_origins r).
+
+Definition same_ext (m r : gext) : bool :=
+  (a_method (x_auth m) =? a_method (x_auth r)) && list_eqb (a_http_addr (x_auth m)) (a_http_addr (x_auth r)) &&
+  list_eqb_with user_eqb (a_users (x_auth m)) (a_users (x_auth r)) &&
+  same_srv (x_api_srv m) (x_api_srv r) && same_srv (x_metrics_srv m) (x_metrics_srv r) &&
+  same_srv (x_pprof_srv m) (x_pprof_srv r) && same_srv (x_playback_srv m) (x_playback_srv r) &&
+  same_srv (x_hls_srv m) (x_hls_srv r) && same_srv (w_srv (x_webrtc m)) (w_srv (x_webrtc r)) &&
+  Bool.eqb (r_on (x_rtsp m)) (r_on (x_rtsp r)) && t_eqb (r_transports (x_rtsp m)) (r_transports (x_rtsp r)) &&
+  (r_encryption (x_rtsp m) =? r_encryption (x_rtsp r)) &&
+  list_eqb_with Z.eqb (r_auth_methods (x_rtsp m)) (r_auth_methods (x_rtsp r)) &&
+  list_eqb (r_cert (x_rtsp m)) (r_cert (x_rtsp r)) && list_eqb (r_key (x_rtsp m)) (r_key (x_rtsp r)) &&
+  Bool.eqb (x_rtmp m) (x_rtmp r) && Bool.eqb (x_hls m) (x_hls r) && Bool.eqb (w_on (x_webrtc m)) (w_on (x_webrtc r)) &&
+  list_eqb (w_local_udp (x_webrtc m)) (w_local_udp (x_webrtc r)) &&
+  list_eqb (w_local_tcp (x_webrtc m)) (w_local_tcp (x_webrtc r)) &&
+  list_eqb_with list_eqb (w_hosts (x_webrtc m)) (w_hosts (x_webrtc r)) &&
+  list_eqb_with ice_eqb (w_ice (x_webrtc m)) (w_ice (x_webrtc r)) &&
+  list_eqb (m_http2 (x_moq m)) (m_http2 (x_moq r)) && list_eqb (m_http3 (x_moq m)) (m_http3 (x_moq r)) &&
+  Bool.eqb (d_pd_record (x_rec m)) (d_pd_record (x_rec r)) && list_eqb (d_pd_path (x_rec m)) (d_pd_path (x_rec r)) &&
+  (d_pd_format (x_rec m) =? d_pd_format (x_rec r)) && (d_pd_part (x_rec m) =? d_pd_part (x_rec r)) &&
+  (d_pd_seg (x_rec m) =? d_pd_seg (x_rec r)) && (d_pd_del (x_rec m) =? d_pd_del (x_rec r)).
+
+(* the model's result against the real validated configuration: everything Validate computes or rewrites *)
 Definition same_result (m r : gconf) : bool :=
   (g_wqs m =? g_wqs r) && (g_read_to m =? g_read_to r) && (g_udp m =? g_udp r) &&
   Nat.eqb (length (g_paths m)) (length (g_paths r)) &&
-  forallb (fun pq => list_eqb (p_name (fst pq)) (p_name (snd pq)) &&
-                     Bool.eqb (p_regex (fst pq)) (p_regex (snd pq)) &&
-                     src_eqb (p_source (fst pq)) (p_source (snd pq)) &&
-                     list_eqb (p_record_path (fst pq)) (p_record_path (snd pq)))
-          (combine (g_paths m) (g_paths r)).
+  forallb (fun pq => same_path (fst pq) (snd pq)) (combine (g_paths m) (g_paths r)) &&
+  same_ext (g_x m) (g_x r).
 
 Definition mismatch (c : case) : bool :=
   match c with
@@ -50,7 +73,7 @@ Definition mismatch (c : case) : bool :=
   | Cmp input o =>
       match validate input, o with
       | Ok m, OLoaded r => negb (same_result m r)
-      | Err, OErr => false
+      | Err _, OErr => false
       | _, _ => true
       end
   | Dec key byts b64 k32 nonce box opened o =>
